@@ -78,3 +78,82 @@ func runAnswered(c *mon.Case, sp spec) {
 	c.Nontrivial()
 	c.Sig("answered|r%d|%d|%d", sp.RetryMs, sp.NCtx, sp.NPipes)
 }
+
+// runSupersedeRace: the carrying connection closes (which schedules an immediate re-send of the
+// request) and at the same moment the application supersedes the request with a new Send.  The
+// schedule is perturbed at the point where the scheduled re-send starts, so that it often runs only
+// after the new request has taken the old one's place.  The re-send is for the old request: it must
+// not transmit anything now — in particular not the new request a second time (the retry interval
+// is 10 s; every transmission of the new request beyond the first is too soon).
+func runSupersedeRace(c *mon.Case, sp spec) {
+	rig := hx.NewReqRig(c, "req", sp.NCtx, 2)
+	if c.Failed() {
+		return
+	}
+	const R = 10 * time.Second
+	rig.SetAll(mangos.OptionRetryTime, R)
+	fi := c.Rand.Intn(sp.NCtx)
+	ctx := rig.Ctxs[fi]
+	hx.SetYields(c.Rand.Int63(), &hx.YieldCfg{ProbSleep: 0.8, ProbGosched: 0.2, MaxSleep: 600 * time.Microsecond})
+	defer hx.SetYields(0, nil)
+	send := func(k int) bool {
+		call := mon.Go("Send", func() (interface{}, error) { return nil, ctx.Send(rig.ReqBody(fi, k)) })
+		if !c.AwaitOrViolate("req/send-stuck", "Send with a connected peer", call.Done, mon.AwaitOpts{}) {
+			return false
+		}
+		if _, err, _ := call.Result(); err != nil {
+			c.Violate("req/send-error", "Send returned %v", err)
+			return false
+		}
+		return true
+	}
+	k := 0
+	for round := 0; round < 6 && !c.Failed(); round++ {
+		k++
+		if !send(k) {
+			return
+		}
+		txs, ok := rig.AwaitTx(fi, k, 1, 0, "req/request-not-transmitted")
+		if !ok {
+			return
+		}
+		// the carrier goes, and at once the request is superseded
+		txs[0].Pipe.Drop()
+		if d := c.Rand.Intn(300); d > 0 {
+			mon.Sleep(time.Duration(d) * time.Microsecond)
+		}
+		k++
+		if !send(k) {
+			return
+		}
+		if _, ok := rig.AwaitTx(fi, k, 1, 0, "req/request-not-transmitted"); !ok {
+			return
+		}
+		mon.Sleep(4 * time.Millisecond)
+		if all := rig.TxsOf(fi, k); len(all) > 1 {
+			c.Violate("req/resend-too-soon", "a request that superseded one whose connection had just closed was transmitted %d times within %v (retry interval %v): the re-send scheduled for the superseded request transmitted the new one", len(all), all[len(all)-1].T-all[0].T, R)
+			return
+		}
+		if n := len(rig.TxsOf(fi, k-1)); n > 2 {
+			c.Violate("req/resent-after-supersede", "the superseded request was transmitted %d times", n)
+			return
+		}
+		// answer it, and make sure two connections are there for the next round
+		tx := rig.TxsOf(fi, k)[0]
+		tx.Pipe.Inject(hx.ReplyWire(tx.ID, k))
+		rk := mon.Go("Recv", func() (interface{}, error) { b, e := ctx.Recv(); return b, e })
+		if !c.AwaitOrViolate("req/recv-stuck-at-answer", "Recv of the superseding request's reply", rk.Done, mon.AwaitOpts{}) {
+			return
+		}
+		if v, err, _ := rk.Result(); err != nil {
+			c.Violate("req/answered-recv-failed", "Recv returned (%q, %v)", v, err)
+			return
+		}
+		for len(rig.LivePipes()) < 2 {
+			rig.AddPipe()
+		}
+	}
+	c.Count("supersede_races", 6)
+	c.Nontrivial()
+	c.Sig("supersede-race|%d", sp.NCtx)
+}
